@@ -1,5 +1,7 @@
 (** C20 at the level of the conversion models (Raw/RawProto.v, Raw/RawGdsExport.v; the importers Raw/RawGds.v,
-    Raw/RawLef.v, Tetris/Compile.v, Tetris/TProto.v take no order argument and appear only in section 10).
+    Raw/RawLef.v, Tetris/Compile.v, Tetris/TProto.v take no order argument and appear only in section 10;
+    the raw -> LEF exporter Raw/RawLefExport.v is treated in Raw/RawLefExport_proofs.v with the definitions of
+    sections 1-2 of this file).
 
     A `HashMap<LayerKey, Vec<Shape>>` is an association list [shapemap] with pairwise distinct keys
     (Raw/RawData.v); the ORDER of that list stands for the order in which the hash map happens to yield its
@@ -663,7 +665,7 @@ Definition conversions : list conv_row := [
          layer_tables]
         [("layout21raw/src/gds.rs", "export_abstract_port")];
   mkrow "raw -> LEF (LefExporter)"
-        "no Coq model"
+        "Raw/RawLefExport.v export_with v ord: order argument ord for both maps; the tree is ord = sorted_by_layer (export_gen v)"
         SortedIteration
         ["Abstract.blockages: iterated, through sorted_by_layer";
          "AbstractPort.shapes: iterated, through sorted_by_layer";
